@@ -201,8 +201,7 @@ def job_otsvg_groups(jc):
     with RC.reuse_shims(stubs0):
         results = jc.explore(body, max_paths=2000, catch=(AssertionError, ValueError))
     for r in results:
-        if r.exc is not None:
-            jc.inconclusive.append(f"_glyph_groups raised {r.exc!r}")
+        if not jc.no_exception(r, inp, replay_groups, "C19:otsvg:groups:raises"):
             continue
         A, groups, cache = r.value
         rr = cache.reuse_results.get("g2.1")
